@@ -438,6 +438,46 @@ pub fn start_progress_monitor(prop: String, limit: std::time::Duration) {
     });
 }
 
+/// location and message of the most recent panic (set by the hook of `silence_panics`)
+pub static LAST_PANIC: Mutex<Option<(String, String)>> = Mutex::new(None);
+
 pub fn silence_panics() {
-    std::panic::set_hook(Box::new(|_| {}));
+    std::panic::set_hook(Box::new(|info| {
+        let loc = info.location().map(|l| format!("{}:{}", l.file(), l.line())).unwrap_or_default();
+        let msg = if let Some(s) = info.payload().downcast_ref::<&str>() {
+            s.to_string()
+        } else if let Some(s) = info.payload().downcast_ref::<String>() {
+            s.clone()
+        } else {
+            "panic".to_string()
+        };
+        if let Ok(mut g) = LAST_PANIC.try_lock() {
+            *g = Some((loc, msg.chars().take(200).collect()));
+        }
+    }));
+}
+
+/// A panic that escaped every `guarded` call. If it was raised inside the crate under test (an
+/// absolute path ending in src/lib.rs or src/range.rs outside the cargo registry) the operation the
+/// check was exercising panicked: that is a violation of the running property, reported with a
+/// record whose replay is the quick check itself. Anything else is a defect of the harness (exit 2).
+pub fn escaped_panic(prop: &str) -> i32 {
+    let last = LAST_PANIC.lock().ok().and_then(|g| g.clone());
+    let (loc, msg) = last.unwrap_or_default();
+    let file = loc.rsplit_once(':').map(|x| x.0).unwrap_or("");
+    let in_crate = file.starts_with('/') && !file.contains(".cargo/registry") && !file.contains("/rustc/") && (file.ends_with("/src/lib.rs") || file.ends_with("/src/range.rs"));
+    if in_crate {
+        let dir = format!("{}/replays/{}", out_dir(), prop);
+        let _ = std::fs::create_dir_all(&dir);
+        let path = format!("{}/escaped-panic.json", dir);
+        let rec = json!({"property": prop, "clause": "panic", "key": format!("{}|panic|{}", prop, loc),
+            "case": {"engine": "monitor"}, "observed": format!("an operation of the crate panicked at {}: {}", loc, msg), "expected": "returns"});
+        let _ = std::fs::write(&path, serde_json::to_string_pretty(&rec).unwrap());
+        println!("VIOLATION property={} replay={}", prop, path);
+        println!("  key: {}|panic|{}  ({})", prop, loc, msg);
+        1
+    } else {
+        eprintln!("MACHINERY: the harness panicked at {}: {}", loc, msg);
+        2
+    }
 }
